@@ -42,9 +42,11 @@ Definition SERIAL_OWNED := 18014398509481984 + 2199023255552.     (* IN_BARRIER 
 Notation dkind := SrcData.dkind.
 Notation remove_z := SLane.remove_z.
 
-Record cfg := mkCfg { ck : dkind; troot : bool; starve : bool; canon : bool }.
+Record cfg := mkCfg { ck : dkind; troot : bool; starve : bool; canon : bool; early : bool }.
 (* canon: the role the source inherits at activation (_dispatch_lane_inherit_wlh_from_target): BASE_ANON when it targets a
-   root queue, INNER otherwise *)
+   root queue, INNER otherwise;
+   early: _dispatch_source_activate can compute the priority and installs the source itself (source.c:674; a root target),
+   otherwise the first invoke installs it *)
 Definition role_bits (c : cfg) : Z := if canon c then 1 else 0.
 
 Inductive pc :=
@@ -67,7 +69,8 @@ Inductive pc :=
 | PR_wake (q : Z)                      (* ... _dispatch_queue_wakeup's loop without MAKE_DIRTY *)
 (* dispatch_activate *)
 | PA_rmw (q : Z)                       (* _dispatch_lane_resume(ds, true)'s loop *)
-| PA_role (q : Z)                      (* _dispatch_lane_resume_activate: dq_activate -> role inheritance loop, then resume *)
+| PA_role (q : Z)                      (* _dispatch_lane_resume_activate: dq_activate -> _dispatch_lane_activate: role inheritance loop *)
+| PA_inst (q : Z)                      (* _dispatch_source_activate: install now when the priority is known (source.c:674), then resume *)
 (* a worker of the target queue: _dispatch_source_invoke *)
 | PW_lock (floor : Z)                  (* _dispatch_queue_drain_try_lock *)
 | PW_inst (owned : Z)                  (* invoke2: if (!ds->ds_is_installed) _dispatch_source_install (source.c:751) *)
@@ -137,8 +140,8 @@ Definition set_rwakers (s : gst) (w : list Z) : gst :=
      wakers := wakers s; rwakers := w; latched := latched s; running := running s; merged := merged s;
      dropped := dropped s; delivered := delivered s |}.
 
-Definition set_installed (s : gst) : gst :=
-  {| st := st s; pend := pend s; cancelled := cancelled s; installed := true; rootq := rootq s; pcs := pcs s; token := token s;
+Definition set_installed (s : gst) (b : bool) : gst :=
+  {| st := st s; pend := pend s; cancelled := cancelled s; installed := b; rootq := rootq s; pcs := pcs s; token := token s;
      wakers := wakers s; rwakers := rwakers s; latched := latched s; running := running s; merged := merged s;
      dropped := dropped s; delivered := delivered s |}.
 
@@ -259,10 +262,11 @@ Definition gstep (c : cfg) (s : gst) (t : Z) : option gst :=
       end
   | PA_role q =>
       match inherit_wlh_loop 0 0 (st s) (68719476736 * role_bits c) with
-      | Commit new _ => Some (set_pc (set_st s new) t (PR_rmw q))
-      | NoCommit _ _ => Some (set_pc s t (PR_rmw q))
+      | Commit new _ => Some (set_pc (set_st s new) t (PA_inst q))
+      | NoCommit _ _ => Some (set_pc s t (PA_inst q))
       | _ => None
       end
+  | PA_inst q => Some (set_pc (set_installed s (installed s || early c)) t (PR_rmw q))
   (* ---------------- the drain *)
   | PW_lock floor =>
       match f_dispatch_queue_drain_try_lock 0 0 1 t floor (st s) 0 with
@@ -272,7 +276,7 @@ Definition gstep (c : cfg) (s : gst) (t : Z) : option gst :=
       | Restart _ => Some (set_pc s t (PW_lock (f_dq_state_max_qos (st s))))
       | _ => None
       end
-  | PW_inst owned => Some (set_pc (set_installed s) t (PW_susp owned))
+  | PW_inst owned => Some (set_pc (set_installed s true) t (PW_susp owned))
   | PW_susp owned => Some (set_pc s t (if suspended_word (st s) then PW_fin (owned_unlock owned) else PW_flags owned))
   | PW_flags owned => Some (set_pc s t (if cancelled s then PW_unlock (owned_unlock owned) else PW_pend owned))
   | PW_pend owned => Some (set_pc s t (if pend s =? 0 then PW_unlock (owned_unlock owned) else PW_latch owned))
@@ -318,8 +322,9 @@ Definition step (c : cfg) (s : gst) (a : action) (s' : gst) : Prop :=
   | ABegin t k => valid_tid t /\ begin s t k = Some s'
   | AStep t => valid_tid t /\ gstep c s t = Some s'
   end.
-Definition reach (c : cfg) (role_bits : Z) : gst -> Prop := reachable (fun s => s = init_state role_bits) (step c).
-Definition reach0 (c : cfg) : gst -> Prop := reachable (fun s => s = init_inactive) (step c).
+(* start: the source as created (inactive), or already activated and installed with the given role *)
+Definition reach (c : cfg) (role_bits : Z) : gst -> Prop :=
+  reachable (fun s => s = init_state role_bits \/ s = init_inactive) (step c).
 
 Fixpoint run (c : cfg) (s : gst) (acts : list action) : option gst :=
   match acts with
